@@ -65,7 +65,7 @@ SPEC = dict(
          'cache/shift length 0..9. Judgement |err| <= 8*eps*|r|*max(1,kappa) + one subnormal ulp with kappa measured in quad. '
          'distinct_nontrivial = distinct (function, sign/quadrant/regime class, decade of the argument) cells judged.',
     exhaustive={'quick': 'array helpers: every (block length 0..17, cache/shift length 0..9)', 'thorough': 'array helpers: every (block length 0..17, cache/shift length 0..9)'},
-    require=['dense-norm-2^28-components-squares-sum-overflows', 'weighted-sum-of-elements-near-the-largest-finite-value', 'ftz/norms-judged-under-flush-to-zero', 'outputs-sharing-a-cell/cart2sph', 'outputs-sharing-a-cell/sph2cart', 'giant-stride-reductions', 'giant-stride-copy-swap', 'giant-count-reduction', 'components-around-sqrt-of-range-limits', 'means-of-elements-near-the-largest-finite-value', 'judged/cart2sph-origin-and-z-axis', 'judged/cart2pol-origin', 'large-array-lengths', 'judged/asinh/macro', 'judged/asinh/exported', 'judged/acosh/exported', 'judged/atanh/exported', 'judged/expm1/exported', 'judged/log1p/exported',
+    require=['norm-of-a-vector-with-an-infinite-component', 'fp-control-state-compared-around-the-case', 'dense-norm-2^28-components-squares-sum-overflows', 'weighted-sum-of-elements-near-the-largest-finite-value', 'ftz/norms-judged-under-flush-to-zero', 'outputs-sharing-a-cell/cart2sph', 'outputs-sharing-a-cell/sph2cart', 'giant-stride-reductions', 'giant-stride-copy-swap', 'giant-count-reduction', 'components-around-sqrt-of-range-limits', 'means-of-elements-near-the-largest-finite-value', 'judged/cart2sph-origin-and-z-axis', 'judged/cart2pol-origin', 'large-array-lengths', 'judged/asinh/macro', 'judged/asinh/exported', 'judged/acosh/exported', 'judged/atanh/exported', 'judged/expm1/exported', 'judged/log1p/exported',
              'judged/log1p/macro', 'judged/atan2/macro', 'judged/atan2/exported', 'judged/atan2/exact-y-axis', 'judged/norm2', 'judged/norm3', 'judged/hypot',
              'judged/norm', 'judged/norm_', 'norm-no-spurious-overflow-underflow', 'judged/cart2pol', 'judged/pol2cart', 'judged/cart2sph', 'judged/sph2cart',
              'polar-round-trip', 'sphere-round-trip', 'judged/rad2deg', 'judged/deg2rad', 'judged/rsqrt', 'judged/sum', 'judged/sum_', 'judged/sum1',
